@@ -51,6 +51,14 @@ func runC01(r *Run) {
 	// capped at 1: that cap is C04.R1's obligation, repeated here because "no pool is ever negative" depends on it
 	r.rule("C01.R6", "slash path non-negativity: the proportion applied to pools and undelegations is the capped one (C04.R1/R2 obligations)", 3)
 	r.rule("C01.R7", "the published staking total moves only through the non-negativity-checked helper with the requested amount; a native-restaking decrease that reaches the delegated share is spread over its token value", 3)
+	if pv := w.View("x/assets/keeper", "Keeper.PerformDepositOrWithdraw"); pv != nil {
+		prm := paramName(pv, 1)
+		ok := pv.rejectsWhen(pv.Decl.Body, func(f Fact) bool {
+			c, isC := stripParens(f.Atom).(*ast.CallExpr)
+			return isC && f.Truth && exprString(c.Fun) == prm+".OpAmount.IsNegative"
+		}, nil)
+		r.check(ok, "C01.R7", "deposit-withdraw|rejects-negative-amount", pv.pos(pv.Decl), "a negative amount is rejected for every action before anything else happens", "PerformDepositOrWithdraw does not reject a negative amount on every path: a withdrawal of -X is negated into an unchecked credit of X (balance, deposit record and published total rise without a deposit)")
+	}
 	if tv := w.View("x/assets/keeper", "Keeper.UpdateStakingAssetTotalAmount"); tv == nil {
 		r.bad("C01.R7", "anchor|UpdateStakingAssetTotalAmount", "-", "anchor", "not found")
 	} else {
@@ -100,6 +108,29 @@ func runC01(r *Run) {
 			return true
 		})
 		r.check(okDen, "C01.R7", "nst|proportion-over-share-value", nv.pos(nv.Decl), "the part of a balance decrease that reaches the delegated share is divided by the current token value of the staker's shares", "UpdateNSTBalance does not divide by TotalDelegatedAmountForStakerAsset(staker, asset): a figure derived from the staker's deposit record is stale after an operator slash and the decrease is only partly taken out")
+		// RemoveShare refuses a share that is not positive; inside the spreading loop such a refusal fails the
+		// whole update, so records that carry nothing (share 0 while an undelegation is pending) are skipped
+		okPos, nRem := true, 0
+		for _, c := range nv.CallsNamed("RemoveShare") {
+			if len(c.Args) != 6 {
+				continue
+			}
+			nRem++
+			share := nv.objOf(c.Args[5])
+			pos := false
+			for _, f := range nv.FactsAt(c, false) {
+				if fc, isC := stripParens(f.Atom).(*ast.CallExpr); isC && share != nil && nv.objOf(rootIdent(fc.Fun)) == share {
+					nm := nv.calleeName(fc)
+					if (nm == "IsPositive" && f.Truth) || (nm == "IsZero" && !f.Truth) {
+						pos = true
+					}
+				}
+			}
+			if !pos {
+				okPos = false
+			}
+		}
+		r.check(okPos && nRem >= 1, "C01.R7", "nst|skips-empty-delegations", nv.pos(nv.Decl), "a delegation record without shares is skipped when the decrease is spread", "UpdateNSTBalance hands RemoveShare a share that may be zero (a record left behind by a full undelegation): RemoveShare refuses it and the whole balance decrease fails")
 		r.check(okGuard, "C01.R7", "nst|proportion-divisor-nonzero", nv.pos(nv.Decl), "the division is skipped when nothing is delegated", "the proportion is computed without a !IsZero() test of the divisor")
 	}
 	if r.Prop == "C01" {
@@ -207,6 +238,33 @@ func runC01(r *Run) {
 		})
 		r.check(nUpd >= 1 && len(raw) == 0, "C01.R2", "applier|"+spec.fn, v.pos(v.Decl), fmt.Sprintf("numeric fields change only through %d UpdateAssetValue/UpdateAssetDecValue calls", nUpd),
 			"a ledger field is assigned directly (bypassing the non-negativity check): "+strings.Join(raw, "; "))
+		// ... and the record is stored only after every one of those calls succeeded (also for a record that
+		// does not exist yet: the delta is added to a zero state, it is not the state)
+		upds := v.CallsNamed("UpdateAssetValue", "UpdateAssetDecValue")
+		var unchecked []string
+		nSet := 0
+		for _, sc := range v.CallsNamed("Set") {
+			if len(sc.Args) != 2 {
+				continue
+			}
+			nSet++
+			okAll := true
+			for _, uc := range upds {
+				seen := false
+				for _, f := range v.FactsAt(sc, false) {
+					if o := v.outcome(f); o != nil && o.Call == uc && o.Success {
+						seen = true
+					}
+				}
+				if !seen {
+					okAll = false
+				}
+			}
+			if !okAll {
+				unchecked = append(unchecked, v.pos(sc))
+			}
+		}
+		r.check(nSet >= 1 && len(unchecked) == 0, "C01.R2", "applier-store|"+spec.fn, v.pos(v.Decl), "the record is written only after all its fields went through the checked update", spec.fn+" stores the record at "+strings.Join(unchecked, ", ")+" without every UpdateAssetValue having succeeded on that path: a first delta that is negative is stored as a negative balance")
 	}
 	for _, name := range []string{"UpdateAssetValue", "UpdateAssetDecValue"} {
 		v := w.View("x/assets/types", name)
